@@ -27,7 +27,7 @@ from __future__ import annotations
 
 import ast
 
-from ..astutil import attr_chain, callee_name, calls, handler_types, is_name, is_self_attr, names_in, text, unwrap_await
+from ..astutil import call_recv, attr_chain, callee_name, calls, handler_types, is_name, is_self_attr, names_in, text, unwrap_await
 from ..core import Result
 from ..model import AnchorMissing, Repo, walk_no_nested
 from ..registry import Registry
@@ -113,7 +113,7 @@ def input_mutations(fn_node, tainted_params: set[str], first_seq_param: str | No
     # at entry; we flag only syntactic in-place operations on tainted names.
     for n in walk_no_nested(fn_node):
         if isinstance(n, ast.Call) and isinstance(n.func, ast.Attribute) and n.func.attr in MUTATORS:
-            base = n.func.value
+            base = call_recv(n)
             if isinstance(base, ast.Name) and base.id in tainted and not _rebound_owned_before(fn_node, base.id, n, bindings):
                 yield n, f"{base.id}.{n.func.attr}()"
         tgts = []
@@ -260,11 +260,11 @@ def run(repo: Repo) -> Result:
                             if isinstance(base, ast.Name) and base.id == "self":
                                 res.add("C17-AST", m.qual, f"store:{text(tt)[:40]}", f"{m.qual} stores to `{text(tt)[:50]}` on a parsed-template object outside __init__", m.file, n.lineno)
                 if isinstance(n, ast.Call) and isinstance(n.func, ast.Attribute) and n.func.attr in MUTATORS:
-                    base = n.func.value
+                    base = call_recv(n)
                     while isinstance(base, (ast.Attribute, ast.Subscript)):
                         base = base.value
-                    if isinstance(base, ast.Name) and base.id == "self" and n.func.value is not base:
-                        res.add("C17-AST", m.qual, f"mutate:{text(n.func)[:40]}", f"{m.qual} mutates `{text(n.func.value)[:40]}` of a parsed-template object in place", m.file, n.lineno)
+                    if isinstance(base, ast.Name) and base.id == "self" and call_recv(n) is not base:
+                        res.add("C17-AST", m.qual, f"mutate:{text(n.func)[:40]}", f"{m.qual} mutates `{text(call_recv(n))[:40]}` of a parsed-template object in place", m.file, n.lineno)
     # attribute stores on other objects in render-time functions
     for f in repo.all_functions():
         if f.name not in ("render_to_output", "render_to_output_async", "evaluate", "evaluate_async", "render", "render_async", "render_with_context", "render_with_context_async"):
@@ -320,7 +320,7 @@ def run(repo: Repo) -> Result:
             base = None
             what = None
             if isinstance(n, ast.Call) and isinstance(n.func, ast.Attribute) and n.func.attr in MUTATORS:
-                base, what = n.func.value, f".{n.func.attr}()"
+                base, what = call_recv(n), f".{n.func.attr}()"
             elif isinstance(n, (ast.Assign, ast.AugAssign, ast.Delete)):
                 tgts = n.targets if isinstance(n, (ast.Assign, ast.Delete)) else [n.target]
                 for t in tgts:
@@ -353,7 +353,7 @@ def run(repo: Repo) -> Result:
                 n_def += 1
                 for n in ast.walk(f.node):
                     hit = None
-                    if isinstance(n, ast.Call) and isinstance(n.func, ast.Attribute) and n.func.attr in MUTATORS and is_name(n.func.value, arg.arg):
+                    if isinstance(n, ast.Call) and isinstance(n.func, ast.Attribute) and n.func.attr in MUTATORS and is_name(call_recv(n), arg.arg):
                         hit = f".{n.func.attr}()"
                     elif isinstance(n, ast.Subscript) and isinstance(n.ctx, (ast.Store, ast.Del)) and is_name(n.value, arg.arg):
                         hit = "[...] ="
